@@ -71,3 +71,28 @@ def concrete_inputs_series(model):
         out.append(dict(self=fr.assign.iloc[1, 2::-2], value=v, fill_value=0))
         out.append(dict(self=fr.assign.loc['y', ['d', 'a']], value=v, fill_value=-1))
     return out
+
+
+# Frame.rename: "returns a new container ... the original left exactly as it was" -- the data handed to the new Frame as its OWN (own_data=True) is a copy of
+# the block store, never the receiver's live store (a grow-only result would otherwise grow the original); the columns are handed over WITHOUT ownership
+# (the constructor copies a grow-only columns index), the index with ownership only because indices on the row axis are static
+RECORDS['FrRename'] = {'data': 'elem', 'index': 'elem', 'columns': 'elem', 'own_data': 'bool', 'own_index': 'bool'}
+contract(FR, 'Frame.rename', key='Frame.rename',
+    props=['C08', 'C01', 'C09'],
+    lenient=True, lenient_protect=[],
+    params=dict(self='FaFrame', name='elem', index='elem', columns='elem'), order=['self', 'name'], kwonly=['index', 'columns'],
+    result='FrRename',
+    calls={
+        'self._blocks.copy': dict(params={}, order=[], result='elem', ensures=['result == ufe("tb_copy", self._blocks)', 'result != self._blocks']),
+        'self._index.rename': dict(params=dict(n='elem'), order=['n'], result='elem', ensures=['result == ufe("renamed", self._index, n)']),
+        'self._columns.rename': dict(params=dict(n='elem'), order=['n'], result='elem', ensures=['result == ufe("renamed", self._columns, n)', 'result != self._columns']),
+        # (own_columns is not passed: the constructor then copies a grow-only columns index; a call that passes it is outside this model and leaves the contract undecided)
+        'self.__class__': dict(params=dict(data='elem', index='elem', columns='elem', name='elem', own_data='bool', own_index='bool'), order=['data'],
+                               kwonly=['index', 'columns', 'name', 'own_data', 'own_index'],
+                               result='FrRename', ensures=['result.data == data and result.index == index and result.columns == columns and result.own_data == own_data and result.own_index == own_index']),
+    },
+    free_conditions=['name is NAME_DEFAULT', 'index is NAME_DEFAULT', 'columns is NAME_DEFAULT'],
+    ensures=[
+        'result.data != self._blocks',                                   # never the live block store
+        'implies(result.own_data, result.data == ufe("tb_copy", self._blocks))',
+    ])
